@@ -109,6 +109,28 @@ def runPinned (inp : RunInput) (s : Sys) : List Choice → Option Sys
   | [] => some s
   | c :: cs => match stepPinned inp s c with | some s' => runPinned inp s' cs | none => none
 
+/-- the first enabled worker move among workers `k-1 … 0` (job pick-ups before completions) -/
+def workerMovePinned (inp : RunInput) (s : Sys) : Nat → Option (Choice × Sys)
+  | 0 => none
+  | k + 1 =>
+    match stepPinned inp s (.take k) with
+    | some s' => some (.take k, s')
+    | none =>
+      match stepPinned inp s (.done k) with
+      | some s' => some (.done k, s')
+      | none => workerMovePinned inp s k
+
+/-- default schedule over the pinned dispatcher: main thread first, then a worker; sets in stored order -/
+def autoRunPinned (inp : RunInput) : Nat → Sys → Sys × List Choice
+  | 0, s => (s, [])
+  | fuel + 1, s =>
+    match stepPinned inp s (.main (defaultPerm s)) with
+    | some s' => ((autoRunPinned inp fuel s').1, .main (defaultPerm s) :: (autoRunPinned inp fuel s').2)
+    | none =>
+      match workerMovePinned inp s s.nStarted with
+      | some (c, s') => ((autoRunPinned inp fuel s').1, c :: (autoRunPinned inp fuel s').2)
+      | none => (s, [])
+
 /-- the main thread is blocked in `result_q.get()` for ever: nothing in the result queue, no worker executing a task,
     no task in the job queue -/
 def hungState (s : Sys) (nWorkers : Nat) : Bool :=
